@@ -29,7 +29,7 @@ def _import_order(hid, sym, desc, domain):
                 desc=desc, domain=domain,
                 oracle='the REAL comparator lambda (exported from its TU) is a strict order without ties on two distinct types: '
                        'exactly one of less(a,b), less(b,a) holds, and less(a,a) is false',
-                bounds=dict(quick=dict(defs=dict(SYMBOLIC=sym), unwind=24, unwindset={'ll_memcpy.0': 48, 'll_memmove.0': 48}, cap=300)))
+                bounds=dict(quick=dict(defs=dict(SYMBOLIC=sym), unwind=24, unwindset={'ll_memcpy.0': 48, 'll_memmove.0': 48}, cap=900)))
 
 
 HARNESSES += [
